@@ -473,7 +473,11 @@ func (s *ec2API) DescribeInstances(in *ec2.DescribeInstancesInput) (*ec2.Describ
 		if i, ok := a.insts[id]; ok {
 			lt = i.Launch
 		}
-		return &ec2.Reservation{Instances: []*ec2.Instance{{InstanceId: awsapi.String(id), LaunchTime: &lt}}}
+		state := "running"
+		if i, ok := a.insts[id]; ok && i.EC2State != "" {
+			state = i.EC2State
+		}
+		return &ec2.Reservation{Instances: []*ec2.Instance{{InstanceId: awsapi.String(id), LaunchTime: &lt, State: &ec2.InstanceState{Name: awsapi.String(state)}}}}
 	}
 	switch fault {
 	case FMalformed:
